@@ -274,6 +274,7 @@ def run_history(case):
                 if msg[0] == rc.MSG_REQUEST:
                     stats["victim-request"] += 1
                     handler = msg[2][0] if type(msg[2]) is tuple and msg[2] else None
+                    victim_handlers.append(handler)
                     if policy == "never":
                         continue
                     try:
@@ -292,6 +293,30 @@ def run_history(case):
                     harvest(msg[2])
 
         responses = []
+        victim_handlers = []
+
+        def name_verdict(i, m, msg):
+            """a by-name request whose NAME is not text by value (here: a reference to an object of the peer's, whatever class
+            the peer claims for it) must be refused without asking that object anything: the policy decision is the owner's"""
+            if m[0] != "req" or m[1] not in (H["GETATTR"], H["SETATTR"], H["DELATTR"], H["CALLATTR"]) or len(m[3]) < 2:
+                return
+            try:
+                boxed = msg[2][1][1]
+                if boxed[0][0] != rc.LABEL_LOCAL_REF or boxed[1][0] != rc.LABEL_REMOTE_REF:
+                    return
+                if boxed[0][1] not in conn._local_objects._dict and not conn.closed:
+                    return
+            except Exception:
+                return
+            stats["name-by-reference-probe"] += 1
+            asked = [h for h in victim_handlers if h != H["INSPECT"] and h != H["DEL"]]
+            if asked:
+                problems.append(("name-consulted", "victim asked the peer's object (handler %s) while deciding a by-name access" % asked[0],
+                                 {"after-message": i, "message": m}))
+            seqkey = repr(msg[1])
+            if rc.MSG_REPLY in [kd for kd, s_ in responses if repr(s_) == seqkey]:
+                problems.append(("denied-attribute-served", "by-name access with a name passed by reference was served",
+                                 {"after-message": i, "message": m}))
 
         def policy_verdict(i, m, msg):
             """by-name access that the default policy denies must be answered with an exception"""
@@ -384,8 +409,10 @@ def run_history(case):
                         stats["connection-ended"] += 1
                         break
                     del responses[:]
+                    del victim_handlers[:]
                     alive = drain()
                     policy_verdict(i, m, msg)
+                    name_verdict(i, m, msg)
                     verdict(i, m)
                     if problems:
                         return
@@ -465,6 +492,7 @@ def check(case, rec):
             classes.add(s)
     rec.case(case, nontrivial, classes)
     rec.count("policy-denied probes answered", stats["policy-denied-probe"])
+    rec.count("by-name requests with the name passed by reference", stats["name-by-reference-probe"])
     rec.count("identifiers harvested", stats["harvested"])
     return [Failure(cl, key, case, det) for cl, key, det in problems[:3]]
 
@@ -525,7 +553,10 @@ def attack():
                             "exposed_value", "exposed_method", "pub", "lent_list", "exposed_echo", "__len__"])
     nm = evil.map(lambda n: ["val", ["str", n]])
     bnm = evil.map(lambda n: ["val", ["bytes", n.encode().hex()]])
-    name = st.one_of(nm, nm, bnm)
+    # ... and the name itself passed as a reference to an object of the peer's that claims to be text
+    rnm = st.sampled_from([["rref", ["builtins.str", 901, 902]], ["rref", ["enum.StrEnum", 903, 904]], ["rref", ["builtins.bytes", 905, 906]],
+                           ["rref", ["verif_c07_canary.Thing", 907, 908]]])
+    name = st.one_of(nm, nm, nm, bnm, rnm)
     v = st.sampled_from([["val", ["int", "1"]], ["val", ["str", "secret"]], ["val", ["tuple", []]], ["val", ["none"]]])
     emp = st.just(["val", ["tuple", []]])
     routes = st.one_of(
